@@ -55,6 +55,8 @@ theorem C15_facts :
                            "c.sendBuf = nil", "c.buffering = false", "return n, err"] ∧
     Facts.dtlcp.txWriteToTail = "return c.writeRecordLocked(recordTypeApplicationData, p)" ∧
     Facts.dtlcp.txWriteCall = "c.writeRecordLocked(recordTypeApplicationData, b)" ∧
+    Facts.dtlcp.rxDatagramBuf = "maxCiphertext + recordHeaderLen" ∧ Facts.dtlcp.rxDatagramReadsIntoBuf = true ∧
+    Facts.dtlcp.rxDatagramBufSize = Facts.dtlcp.maxCiphertext + Facts.dtlcp.recordHeaderLen ∧
     (Facts.dtlcp.suiteTable.filter (fun r => !r.2.2.2.2.2.1)).map (fun r => (r.2.2.1, r.2.2.2.1)) = [(32, 16), (32, 16)] := by
   decide
 
@@ -181,6 +183,23 @@ theorem C15_app_fits (pmtu : Int) (n : Nat) :
   · exact C15_app_fits_aead pmtu _ _ n
   · intro hw hn
     exact C15_app_fits_cbc here C15_cbc_padding_budgeted.1 pmtu 16 32 n (by decide) hw hn
+
+/-- **Every record a peer may legally send fits the receive buffer**, whatever either side's
+PMTU is: the buffer of `readDatagram` is a package constant (`C15_facts`: no reference to
+the local, send-side `Config.PMTU`) and holds the largest protected record of every suite.
+So a datagram that respected the *sender's* PMTU is never truncated by the receiver. -/
+theorem C15_record_fits_receive_buffer (pmtu : Int) (c : Cipher) (hc : c = .none ∨ c = gcmHere ∨ c = cbcHere)
+    (n : Nat) (hn : n ≤ maxPayloadSizeForWrite here pmtu c) :
+    recordLen here c n ≤ Facts.dtlcp.rxDatagramBufSize := by
+  have h1 := (C15_max_payload_range pmtu c).2
+  have hb : Facts.dtlcp.rxDatagramBufSize = 18445 := by decide
+  have hp : Facts.dtlcp.maxPlaintext = 16384 := by decide
+  have h13 : here.recordHeaderLen = 13 := by decide
+  have h8 : Facts.dtlcp.aeadNonceLength - Facts.dtlcp.noncePrefixLength = 8 := by decide
+  rcases hc with rfl | rfl | rfl
+  · simp only [recordLen, h13]; omega
+  · simp only [recordLen, gcmHere, h13, h8]; omega
+  · simp only [recordLen, cbcHere, h13]; omega
 
 /-- with the model of the wire format written from the standard: same sizes -/
 theorem C15_wire_len_matches_spec (n : Nat) :
